@@ -17,6 +17,17 @@ class R:
             raise AttributeError(n)
         return R(f"{self._t}.{n}")
 
+    def __str__(self):
+        return self._t
+
+    __repr__ = __str__
+
+    def __format__(self, spec):
+        return self._t
+
+    def __getitem__(self, i):
+        return R(f"{self._t}[{i!r}]")
+
     def __call__(self, *a, **k):
         parts = [x._t if isinstance(x, R) else (beh(x) if callable(x) else repr(x)) for x in a]
         return R(f"{self._t}({','.join(parts)})")
@@ -144,7 +155,7 @@ class C03(Check):
 
     def spaces(self, tier):
         Q = tier == "quick"
-        styles = ("one", "brk", "par", "str") if Q else layouts.STYLES
+        styles = ("one", "brk", "str", "fstr0", "fstr1", "coll") if Q else layouts.STYLES
         ctxs = layouts.CONTEXTS
         return [
             Space("two-calls", {"ops": layouts.OPS, "params": layouts.PARAMS, "styles": styles, "contexts": ctxs},
